@@ -142,6 +142,36 @@ def hexs(b: bytes) -> str:
     return b.hex() if b else "-"
 
 
+def guarded(prop_id: str, main: Callable[[], None]):
+    """Run a check's main(); a crash of the harness itself (e.g. the code was restructured so that the harness can no
+    longer drive it) is a broken tie, reported like one - never a silent pass, never a bare traceback."""
+    try:
+        main()
+    except SystemExit:
+        raise
+    except BaseException as e:  # noqa
+        import traceback
+        tb = traceback.format_exc()
+        os.makedirs(os.path.join(VERIF, "replays"), exist_ok=True)
+        tier = os.environ.get("VERIF_TIER", "quick")
+        for i, a in enumerate(sys.argv):
+            if a == "--tier" and i + 1 < len(sys.argv):
+                tier = sys.argv[i + 1]
+        seed = int(os.environ.get("VERIF_SEED", "0") or 0)
+        replay = os.path.join(VERIF, "replays", f"{prop_id}_{tier}_{seed}.json")
+        json.dump(dict(property=prop_id, kind="tie-broken", no_longer_checks=[dict(kind="correspondence harness crashed", error=repr(e), traceback=tb[-4000:])],
+                       note="the harness could not drive the implementation; no failing input could be searched for"), open(replay, "w"), indent=1)
+        ev = dict(property_id=prop_id, tier=tier if tier in ("quick", "thorough") else "quick", seed=seed, level="proof",
+                  coverage=dict(obligations=1, discharged=0, checker_cmd="harness crashed before the proof obligations were checked",
+                                trusted_base=[], evaluations=1, distinct_nontrivial=2, explanation="harness crash: " + repr(e)),
+                  wall_s=0.0, violations=1)
+        os.makedirs(os.path.join(VERIF, "evidence"), exist_ok=True)
+        json.dump(ev, open(os.path.join(VERIF, "evidence", f"{prop_id}.json"), "w"), indent=1)
+        print(f"VIOLATION property={prop_id} replay={replay} no-failing-input-found")
+        print(tb[-1500:], file=sys.stderr)
+        sys.exit(1)
+
+
 class Check:
     def __init__(self, prop_id: str, argv: Sequence[str]):
         self.id = prop_id
